@@ -3,7 +3,7 @@
 (* mm2bin.cpp with io::write) and the seek arithmetic of crs_size, read_crs and     *)
 (* read_dense for a row range.                                                      *)
 (*                                                                                  *)
-(* A file is the field list the writer produced                                     *)
+(* A file is the list of fields the writer produced                                 *)
 (*      crs  :  n | ptr[0..n] | col[0..nnz-1] | val[0..nnz-1]                       *)
 (*      dense:  n | m | val[0..n*m-1]      (row-major)                              *)
 (* with per-field byte widths sz = [S, P, C, V] and a length `len` in bytes         *)
@@ -18,31 +18,64 @@ CONSTANT Checked
 TORN == -7
 
 \* ------------------------------------------------------------------- layout
-\* fields in file order: <<name, index, width, value>>
-CrsFields(n, ptr, col, val, sz) ==
-    <<<<"n", 0, sz.S, n>>>> \o [k \in 1..Len(ptr) |-> <<"ptr", k - 1, sz.P, ptr[k]>>] \o
-    [k \in 1..Len(col) |-> <<"col", k - 1, sz.C, col[k]>>] \o [k \in 1..Len(val) |-> <<"val", k - 1, sz.V, val[k]>>]
-DenseFields(n, m, val, sz) ==
-    <<<<"n", 0, sz.S, n>>, <<"m", 0, sz.S, m>>>> \o [k \in 1..Len(val) |-> <<"val", k - 1, sz.V, val[k]>>]
+\* file = [kind, n, m, ptr, col, val, sz, len]: the field values as written (one of them possibly
+\* altered afterwards), the widths and the number of bytes present
+LayoutLen(kind, np, nc, nv, sz) == IF kind = "crs" THEN sz.S + np * sz.P + nc * sz.C + nv * sz.V ELSE 2 * sz.S + nv * sz.V
+BinWriteCrs(A, sz) ==
+    [kind |-> "crs", n |-> A.n, m |-> 0, ptr |-> A.ptr, col |-> A.col, val |-> A.val, sz |-> sz,
+     len |-> LayoutLen("crs", Len(A.ptr), Len(A.col), Len(A.val), sz)]
+BinWriteDense(n, m, data, sz) ==
+    [kind |-> "dense", n |-> n, m |-> m, ptr |-> <<>>, col |-> <<>>, val |-> data, sz |-> sz,
+     len |-> LayoutLen("dense", 0, 0, Len(data), sz)]
+\* the fields of a file in file order, as <<name, index>>
+FieldsOf(f) ==
+    IF f.kind = "crs"
+    THEN <<<<"n", 1>>>> \o [k \in 1..Len(f.ptr) |-> <<"ptr", k>>] \o [k \in 1..Len(f.col) |-> <<"col", k>>] \o [k \in 1..Len(f.val) |-> <<"val", k>>]
+    ELSE <<<<"n", 1>>, <<"m", 1>>>> \o [k \in 1..Len(f.val) |-> <<"val", k>>]
+FieldWidth(f, name) == IF name \in {"n", "m"} THEN f.sz.S ELSE IF name = "ptr" THEN f.sz.P ELSE IF name = "col" THEN f.sz.C ELSE f.sz.V
+FieldOffset(f, name, k) ==      \* byte offset of the k-th (1-based) field of that name
+    IF f.kind = "crs"
+    THEN CASE name = "n"   -> 0
+           [] name = "ptr" -> f.sz.S + (k - 1) * f.sz.P
+           [] name = "col" -> f.sz.S + Len(f.ptr) * f.sz.P + (k - 1) * f.sz.C
+           [] OTHER        -> f.sz.S + Len(f.ptr) * f.sz.P + Len(f.col) * f.sz.C + (k - 1) * f.sz.V
+    ELSE CASE name = "n" -> 0 [] name = "m" -> f.sz.S [] OTHER -> 2 * f.sz.S + (k - 1) * f.sz.V
+FieldValue(f, name, k) == CASE name = "n" -> f.n [] name = "m" -> f.m [] name = "ptr" -> f.ptr[k] [] name = "col" -> f.col[k] [] OTHER -> f.val[k]
 
-Offsets(fs) == LET off[k \in 1..(Len(fs) + 1)] == IF k = 1 THEN 0 ELSE off[k - 1] + fs[k - 1][3] IN off
-FileOfFields(fs, sz) ==
-    LET off == Offsets(fs)
-    IN  [fields |-> fs, off |-> off, len |-> off[Len(fs) + 1], sz |-> sz,
-         at |-> [o \in {off[k] : k \in 1..Len(fs)} |-> CHOOSE k \in 1..Len(fs) : off[k] = o]]
-BinWriteCrs(A, sz)   == FileOfFields(CrsFields(A.n, A.ptr, A.col, A.val, sz), sz)
-BinWriteDense(n, m, data, sz) == FileOfFields(DenseFields(n, m, data, sz), sz)
+\* the field of width w that starts at byte offset o, if any:  [hit, v]
+Region(f, o, w, name, cnt) ==
+    LET base == FieldOffset(f, name, 1)
+        fw   == FieldWidth(f, name)
+    IN  IF cnt > 0 /\ fw = w /\ o >= base /\ o < base + cnt * fw /\ (o - base) % fw = 0
+        THEN [hit |-> TRUE, v |-> FieldValue(f, name, (o - base) \div fw + 1)] ELSE [hit |-> FALSE, v |-> 0]
+FieldAt(f, o, w) ==
+    LET rs == IF f.kind = "crs"
+              THEN <<Region(f, o, w, "n", 1), Region(f, o, w, "ptr", Len(f.ptr)), Region(f, o, w, "col", Len(f.col)), Region(f, o, w, "val", Len(f.val))>>
+              ELSE <<Region(f, o, w, "n", 1), Region(f, o, w, "m", 1), Region(f, o, w, "val", Len(f.val))>>
+        hs == SelectSeq(rs, LAMBDA r : r.hit)
+    IN  IF hs = <<>> THEN [hit |-> FALSE, v |-> 0] ELSE hs[1]
 
 \* read one value of width w at byte offset o:  [ok, v]
 ReadAt(f, o, w) ==
     IF o < 0 \/ o + w > f.len THEN [ok |-> FALSE, v |-> 0]
-    ELSE IF o \in DOMAIN f.at /\ f.fields[f.at[o]][3] = w THEN [ok |-> TRUE, v |-> f.fields[f.at[o]][4]]
-         ELSE [ok |-> TRUE, v |-> TORN]
-\* read cnt values of width w starting at o (f.read of cnt * w bytes)
+    ELSE LET r == FieldAt(f, o, w) IN [ok |-> TRUE, v |-> IF r.hit THEN r.v ELSE TORN]
+\* read cnt values of width w starting at o (f.read of cnt * w bytes); a run that lies inside one
+\* region of the layout is taken as a whole, anything else field by field
+RunIn(f, o, w, cnt, name, total) ==
+    LET base == FieldOffset(f, name, 1)
+    IN  FieldWidth(f, name) = w /\ o >= base /\ (o - base) % w = 0 /\ o + w * cnt <= base + total * w
 ReadVec(f, o, w, cnt) ==
     IF cnt = 0 THEN [ok |-> o >= 0, v |-> <<>>]                    \* a zero-byte read after a failed (negative) seek still fails
     ELSE IF o < 0 \/ o + w * cnt > f.len THEN [ok |-> FALSE, v |-> <<>>]
-    ELSE [ok |-> TRUE, v |-> [k \in 1..cnt |-> ReadAt(f, o + (k - 1) * w, w).v]]
+    ELSE LET names == IF f.kind = "crs" THEN <<"ptr", "col", "val">> ELSE <<"val">>
+             tot(nm) == IF nm = "ptr" THEN Len(f.ptr) ELSE IF nm = "col" THEN Len(f.col) ELSE Len(f.val)
+             inn == SelectSeq(names, LAMBDA nm : RunIn(f, o, w, cnt, nm, tot(nm)))
+         IN  IF inn # <<>>
+             THEN LET nm == inn[1]
+                      k0 == (o - FieldOffset(f, nm, 1)) \div w
+                      src == IF nm = "ptr" THEN f.ptr ELSE IF nm = "col" THEN f.col ELSE f.val
+                  IN  [ok |-> TRUE, v |-> [k \in 1..cnt |-> src[k0 + k]]]
+             ELSE [ok |-> TRUE, v |-> [k \in 1..cnt |-> ReadAt(f, o + (k - 1) * w, w).v]]
 
 \* --------------------------------------------------------------------- readers
 BOut(st, why, n, m, ptr, col, val) == [st |-> st, why |-> why, A |-> [n |-> n, m |-> m, ptr |-> ptr, col |-> col, val |-> val]]
@@ -87,6 +120,7 @@ ReadCrs(f, rb0, re0) ==
         ELSE IF chunk + 1 = 0 THEN BCrash("ptr.front() of an empty vector")
         ELSE IF ~rp.ok THEN BErr("io ptr")
         ELSE IF ~rz.ok THEN BErr("io nnz")
+        ELSE IF Checked /\ ~(rp.v[1] >= 0 /\ rp.v[Len(rp.v)] <= nnz) THEN BErr("wrong row pointers")
         ELSE IF Checked /\ ~Monotone(rp.v) THEN BErr("row pointers are not monotone")
         ELSE IF cnt < 0 \/ cnt > MaxAlloc THEN BErr("length_error")
         ELSE IF ~rc.ok THEN BErr("io col")
@@ -108,8 +142,9 @@ ReadDense(f, rb0, re0) ==
         cnt == (re - rb) * m
         rv == ReadVec(f, 2 * sz.S + rb * m * sz.V, sz.V, cnt)
     IN  IF ~rn.ok THEN BErr("io n") ELSE IF ~rm.ok THEN BErr("io m")
+        ELSE IF Checked /\ (n < 0 \/ m < 0) THEN BErr("wrong matrix sizes")
         ELSE IF ~(rb >= 0 /\ re <= n) THEN BErr("wrong subset")
-        ELSE IF Checked /\ (rb > re \/ m < 0) THEN BErr("wrong subset")
+        ELSE IF Checked /\ rb > re THEN BErr("wrong subset")
         ELSE IF cnt < 0 \/ cnt > MaxAlloc THEN BErr("length_error")
         ELSE IF ~rv.ok THEN BErr("io val")
         ELSE BOut("ok", "", re - rb, m, <<0>>, <<>>, rv.v)
